@@ -8,7 +8,7 @@ LEVEL = 'exploration'
 RULE = ('complete enumeration of qubit count x rank vector (all admissible vectors over {1,2,max}) x EVERY non-empty subset of '
         'measured sites; per point the environment answers (uniform variates) are enumerated: for every one of the 2^k outcome '
         'paths a row just inside each conditional threshold (P0 -/+ 1e-9) and a row at the interval midpoints, injected by '
-        'patching numpy.random.rand; additional runs with 1 sample and with multiplicities 1,2,3; a strongly polarised product state per subset (rare prefixes, probability ~1e-4^k); after the first round the SAME state object is changed in place (bit flip) and sampled again. Oracle: dense inverse-CDF '
+        'patching numpy.random.rand; additional runs with 1 sample, with multiplicities 1,2,3 and with 70 001 (thorough: 140 003) rows of fixed variates on entangled states; a strongly polarised product state per subset (rare prefixes, probability ~1e-4^k); after the first round the SAME state object is changed in place (bit flip) and sampled again. Oracle: dense inverse-CDF '
         'sampler on |psi|^2 marginalised over the unmeasured sites. Non-trivial: every case.')
 ASSUMPTIONS = ['state normalised and right-orthonormal (D4)', 'measured sites given in increasing order', 'outcome paths whose conditional probability is within 2e-9 of 0 or 1 cannot be realised by a variate and are skipped (counted)',
                'the statement about large sample counts is a consequence (law of large numbers applied to the exactly checked inverse-CDF map), not enumerated']
@@ -17,7 +17,7 @@ CHUNK = 8
 
 def space(tier):
     return {'qubits': [1, 2, 3, 4] if tier == 'quick' else [1, 2, 3, 4, 5, 6], 'ranks': 'admissible over {1,2,max}', 'measured subsets': 'all non-empty',
-            'variates': 'per outcome path: thresholds -/+ 1e-9 and midpoints'}
+            'variates': 'per outcome path: thresholds -/+ 1e-9 and midpoints', 'sample counts': [1, 'number of paths', 70001, 140003]}
 
 
 def _qc():
@@ -33,6 +33,10 @@ def cases(tier):
     for n in (66, 70):
         for S in (list(range(n)), list(range(0, n, 2)) + [n - 1] if n % 2 == 0 else list(range(0, n, 2))):
             yield {'n': n, 'r': [1] * (n + 1), 'S': sorted(set(S)), 'big': True}
+    # sample counts beyond 2^16 and 2^17 on entangled states (maximal ranks): every sample row is an environment answer
+    for n, S in ((2, [0, 1]), (3, [0, 1, 2]), (3, [0, 2]), (4, [1, 3])):
+        for ns in ((70001,) if tier == 'quick' else (70001, 140003)):
+            yield {'n': n, 'r': max_ranks([2] * n), 'S': S, 'many': ns}
     for n in ([1, 2, 3, 4] if tier == 'quick' else [1, 2, 3, 4, 5, 6]):
         mr = max_ranks([2] * n)
         alph = sorted({1, 2, max(mr)})
@@ -65,6 +69,8 @@ def run_case(case, seed):
         st.ortho_right()
         st = (1.0 / st.norm()) * st
     r.nontrivial = True
+    if case.get('many'):
+        return run_many(r, qc, st, n, S, k, case['many'], rng)
     return _run_state(r, qc, st, n, S, k, second_round=True)
 
 
@@ -96,6 +102,36 @@ def run_big(case, r, qc, seed):
             smp = np.asarray(smp); prob = np.asarray(prob)
             r.true('sampling:large-register:inverse-cdf', smp.shape == ws.shape and np.array_equal(smp, ws) and np.allclose(prob, cnt / U.shape[0], rtol=0, atol=1e-15),
                    '%d distinct outcomes returned, %d expected (%d measured sites)' % (smp.shape[0], ws.shape[0], k))
+    finally:
+        np.random.rand = orig
+    r.true('sampling:state-unchanged', unchanged(st, s0))
+    return r
+
+
+def run_many(r, qc, st, n, S, k, ns, rng):
+    """one call with ns > 2^16 samples: every row of injected variates must be mapped by the exact inverse CDF"""
+    s0 = snap(st)
+    p = np.abs(vec(st).reshape([2] * n)) ** 2
+    marg = p.sum(axis=tuple(i for i in range(n) if i not in S)).reshape([2] * k)
+    U = rng.random((ns, k))
+    out = np.zeros((ns, k))
+    for i in range(k):
+        for prefix in itertools.product([0, 1], repeat=i):
+            mask = np.all(out[:, :i] == np.array(prefix)[None, :], axis=1) if i else np.ones(ns, dtype=bool)
+            sub = marg[tuple(prefix)]
+            q0 = sub[(0,) + (slice(None),) * (k - i - 1)].sum() / sub.sum()
+            near = mask & (np.abs(U[:, i] - q0) < 1e-9)
+            U[near, i] = q0 / 2
+            out[mask, i] = U[mask, i] > q0
+    ws, cnt = np.unique(out, return_counts=True, axis=0)
+    orig = np.random.rand
+    np.random.rand = lambda *shape: U.copy()
+    try:
+        with r.op('sampling:many-samples:call'):
+            smp, prob = qc.sampling(st, list(S), ns)
+            smp = np.asarray(smp); prob = np.asarray(prob)
+            r.true('sampling:many-samples:inverse-cdf', smp.shape == ws.shape and np.array_equal(smp, ws) and np.allclose(prob, cnt / ns, rtol=0, atol=1e-15),
+                   '%d samples: outcomes %s with frequencies %s, expected %s %s' % (ns, smp.tolist(), np.round(prob, 5).tolist(), ws.tolist(), np.round(cnt / ns, 5).tolist()))
     finally:
         np.random.rand = orig
     r.true('sampling:state-unchanged', unchanged(st, s0))
